@@ -1,4 +1,6 @@
 import JL.Lemmas.Monad
+import JL.Lemmas.C04
+import JL.Props.C01
 /-!
 # C17 — `apply` is a pure, stateless, thread-safe function of (rule, data)
 
@@ -34,5 +36,36 @@ theorem log_effect (v : Json) : execEager "log".toList [v] = ⟨[v], .ok v⟩ :=
   rfl
 
 example : apply (.obj [("log".toList, .arr [.str "x".toList])]) .null = ⟨[.str "x".toList], .ok (.str "x".toList)⟩ := by decide +kernel
+
+/-- **The only externally visible effect is `log`**: no other eager operator and no data operator writes a line, whatever its
+operands; and `log` writes exactly one line holding its operand. (The lazy operators write nothing of their own either: their
+traces are concatenations of their evaluated operands' traces — `JL.Props.C05`, `C13`, `C14` state each unfolding.) -/
+theorem only_log_writes (k : Str) (vs : List Json) (h : k ≠ "log".toList) : (execEager k vs).logs = [] := by
+  rw [JL.execEager_logs]; unfold JL.ownTrace; rw [if_neg h]
+
+theorem data_ops_write_nothing (k : Str) (d : Json) (vs : List Json) : (execData k d vs).logs = [] :=
+  JL.execData_logs k d vs
+
+/-- a literal (any value that is not an operation) evaluates silently -/
+theorem literal_silent (r d : Json) (hr : ∀ k v, r ≠ .obj [(k, v)]) : (apply r d).logs = [] := by
+  unfold apply
+  have hc : check r = true := by
+    unfold check; split
+    · rename_i k v; exact absurd rfl (hr k v)
+    · rfl
+  rw [hc]; simp only [if_true]
+  unfold run; split
+  · rename_i k v; exact absurd rfl (hr k v)
+  · rfl
+
+/-- every call has an outcome and that outcome is a function of (rule, data) alone: two calls with equal arguments agree -/
+theorem deterministic (r₁ d₁ r₂ d₂ : Json) (hr : r₁ = r₂) (hd : d₁ = d₂) : apply r₁ d₁ = apply r₂ d₂ := by subst hr; subst hd; rfl
+
+/-- and it is always a value or an error value (never a panic), so a history can always continue: `JL.Props.C01.apply_total` -/
+theorem history_never_stops (calls : List Call) : ∀ m ∈ runHistory () calls, M.NoPanic m := by
+  intro m hm
+  rw [hist_refines] at hm
+  obtain ⟨c, _, rfl⟩ := List.mem_map.mp hm
+  exact JL.Props.C01.apply_total c.rule c.data
 
 end JL.Props.C17
